@@ -1,6 +1,8 @@
 import Cppcheck.Model.SevDecide
 import Cppcheck.Proofs.SevDecide
 import Cppcheck.Model.MiniC
+import Cppcheck.Model.LeakStraight
+import Cppcheck.Proofs.LeakStraight
 /-!
 C04 — definite runtime-error findings are true positives.
 
@@ -265,3 +267,68 @@ example : Cppcheck.MiniC.conv Cppcheck.MiniC.lp64 (Cppcheck.MiniC.promote Cppche
   decide
 
 end Cppcheck.SevDecide
+
+/-!
+Part 2: `CheckLeakAutoVar::checkScope` on straight-line functions (`Cppcheck.LeakStraight`): programs are lists of
+`alloc x | free x | use x | assign x y | ret x | ret0` of any length over any number of pointer variables; `reports` is the
+automaton copied from the code, `oracle` the events of the one concrete execution (fresh block per allocation, freed set,
+uninitialised variables; execution stops at the first return).
+-/
+namespace Cppcheck.LeakStraight
+
+/-- **no false positives on straight-line code**: when no statement follows a `return`, every memleak / doubleFree /
+    deallocuse / deallocret the automaton reports is an event of the concrete execution at the same statement for the same
+    variable — unless the execution has read an uninitialised pointer at an earlier statement (it was undefined before). -/
+theorem leak_reports_sound (p : List Op) (h : retOnlyLast p = true) :
+    ∀ r ∈ reports p, r ∈ oracle p ∨ ∃ u ∈ oracle p, u.kind = .uninit ∧ u.pos < r.pos :=
+  scan_sound (nvars p) p clearA init 0 inv_init h
+
+example : retOnlyLast [.alloc 0, .alloc 1, .free 0, .use 0, .ret 0] = true ∧
+    reports [.alloc 0, .alloc 1, .free 0, .use 0, .ret 0] = [⟨.deallocuse, 0, 3⟩, ⟨.deallocret, 0, 4⟩, ⟨.memleak, 1, 4⟩] := by
+  decide
+
+/-- the hypothesis is needed: checkScope keeps scanning behind a `return`, the execution does not.
+    `return 0; free(p0); free(p0);` is reported as doubleFree although `free` is never executed (finding F04b). -/
+theorem leak_reports_sound_counterexample :
+    ¬ ∀ p : List Op, ∀ r ∈ reports p, r ∈ oracle p ∨ ∃ u ∈ oracle p, u.kind = .uninit ∧ u.pos < r.pos := by
+  intro h
+  have := h [.ret0, .free 0, .free 0] ⟨.doubleFree, 0, 2⟩ (by decide)
+  revert this
+  decide
+
+/-- a function whose execution neither leaks nor misuses a block (and reads no uninitialised pointer) gets no finding -/
+theorem clean_program_no_reports (p : List Op) (h : retOnlyLast p = true) (hc : oracle p = []) : reports p = [] := by
+  apply List.eq_nil_iff_forall_not_mem.mpr
+  intro r hr
+  rcases leak_reports_sound p h r hr with h1 | ⟨u, hu, _⟩
+  · rw [hc] at h1; simp at h1
+  · rw [hc] at hu; simp at hu
+
+example : retOnlyLast [.alloc 0, .use 0, .assign 1 0, .free 1, .alloc 0, .ret 0] = true ∧
+    oracle [.alloc 0, .use 0, .assign 1 0, .free 1, .alloc 0, .ret 0] = [] := by decide
+
+/-- **exactness without pointer copies**: no `px = py`, no read of an uninitialised pointer, nothing behind a return ⇒ the
+    automaton reports exactly the events of the execution, in the same order. -/
+theorem leak_automaton_exact (p : List Op) (h1 : retOnlyLast p = true) (h2 : noAssign p = true) (h3 : noUninit p = true) :
+    reports p = oracle p := by
+  apply scan_exact (nvars p) p clearA init 0 exact_init h1 h2
+  intro u hu
+  unfold noUninit at h3
+  have := List.all_eq_true.mp h3 u hu
+  simpa using this
+
+example : retOnlyLast [.alloc 0, .alloc 0, .free 0, .free 0, .alloc 1, .ret0] = true ∧
+    noAssign [.alloc 0, .alloc 0, .free 0, .free 0, .alloc 1, .ret0] = true ∧
+    noUninit [.alloc 0, .alloc 0, .free 0, .free 0, .alloc 1, .ret0] = true ∧
+    oracle [.alloc 0, .alloc 0, .free 0, .free 0, .alloc 1, .ret0] = [⟨.memleak, 0, 1⟩, ⟨.doubleFree, 0, 3⟩, ⟨.memleak, 1, 5⟩] := by
+  decide
+
+/-- with a pointer copy the automaton is no longer complete (it forgets both variables): `p1 = p0; free(p0); free(p1);` -/
+theorem leak_automaton_exact_counterexample :
+    ¬ ∀ p : List Op, retOnlyLast p = true → noUninit p = true → reports p = oracle p := by
+  intro h
+  have := h [.alloc 0, .assign 1 0, .free 0, .free 1] (by decide) (by decide)
+  revert this
+  decide
+
+end Cppcheck.LeakStraight
